@@ -581,6 +581,103 @@ func RuleKPartChain(c *core.Ctx) {
 			}
 		}
 	}
+	// (span) the partition's span — what Contains tests, and what the window
+	// filter therefore keeps — is the window it was asked for, not something
+	// recomputed from the periods (with --last the periods cover only its tail,
+	// while Align attributes the earlier dates to the first period)
+	if spanF := p.Field(pkgDate, "Partition", "span"); spanF != nil {
+		spanOK, sawSpan := true, false
+		core.EachInstr(ctor, func(ins ssa.Instruction) {
+			st, ok := ins.(*ssa.Store)
+			if !ok {
+				return
+			}
+			fa, ok := st.Addr.(*ssa.FieldAddr)
+			if !ok || core.FieldOf(fa) != spanF {
+				return
+			}
+			sawSpan = true
+			v := core.Strip(st.Val)
+			isParam := false
+			if prm, ok := v.(*ssa.Parameter); ok && isNamed(prm.Type(), periodT) {
+				isParam = true
+			}
+			if ld, ok := v.(*ssa.UnOp); ok && ld.Op == token.MUL {
+				if al, ok := ld.X.(*ssa.Alloc); ok {
+					sts := core.StoresTo(al)
+					if len(sts) == 1 {
+						if prm, ok := core.Strip(sts[0].Val).(*ssa.Parameter); ok && isNamed(prm.Type(), periodT) {
+							isParam = true
+						}
+					}
+				}
+			}
+			if !isParam {
+				spanOK = false
+			}
+		})
+		if sawSpan {
+			if spanOK {
+				c.Ob(rule, core.FuncName(ctor)+":span: the partition spans the window it was given", ctor.Pos(), core.FuncName(ctor), core.Discharged, "Partition.span is the window parameter itself")
+			} else {
+				c.Ob(rule, core.FuncName(ctor)+":span: the partition spans the window it was given", ctor.Pos(), core.FuncName(ctor), core.Violated, "Partition.span is not the window the constructor was given: Contains (used by the window filter) and Align (used by the reports) then disagree about dates before the first shown period")
+			}
+		}
+	}
+	// (contains) the membership test of the partition — what the window filter
+	// uses — reads a field that holds the window itself
+	{
+		partT := p.NamedType(pkgDate, "Partition")
+		windowFields := map[*types.Var]bool{}
+		core.EachInstr(ctor, func(ins ssa.Instruction) {
+			st, ok := ins.(*ssa.Store)
+			if !ok {
+				return
+			}
+			fa, ok := st.Addr.(*ssa.FieldAddr)
+			if !ok || core.FieldOf(fa) == nil {
+				return
+			}
+			v := core.Strip(st.Val)
+			if ld, ok := v.(*ssa.UnOp); ok && ld.Op == token.MUL {
+				if al, ok := ld.X.(*ssa.Alloc); ok {
+					if sts := core.StoresTo(al); len(sts) == 1 {
+						v = core.Strip(sts[0].Val)
+					}
+				}
+			}
+			if prm, ok := v.(*ssa.Parameter); ok && isNamed(prm.Type(), periodT) {
+				windowFields[core.FieldOf(fa)] = true
+			}
+		})
+		for _, m := range p.SrcFuncs() {
+			if core.PkgPathOf(m) != pkgDate || m.Signature.Recv() == nil || partT == nil || !isNamed(derefType(m.Signature.Recv().Type()), partT) {
+				continue
+			}
+			if len(m.Params) != 2 || !isTimeType(m.Params[1].Type()) || !onlyBoolResults(m) {
+				continue
+			}
+			key := core.FuncName(m) + ":contains: membership is membership in the window"
+			ok := false
+			core.EachInstr(m, func(ins ssa.Instruction) {
+				switch x := ins.(type) {
+				case *ssa.FieldAddr:
+					if windowFields[core.FieldOf(x)] {
+						ok = true
+					}
+				case *ssa.Field:
+					if windowFields[core.FieldOf(x)] {
+						ok = true
+					}
+				}
+			})
+			if ok {
+				c.Ob(rule, key, m.Pos(), core.FuncName(m), core.Discharged, "reads the field in which the constructor stores its window parameter")
+			} else {
+				c.Ob(rule, key, m.Pos(), core.FuncName(m), core.Violated, "the partition's membership test does not read the window the partition was built for (no field holds it, or another one is used): with --last the test accepts only the shown periods while Align still attributes earlier dates to the first of them")
+			}
+		}
+	}
 	stored := false
 	for _, f := range []*ssa.Function{fn, ctor} {
 		core.EachInstr(f, func(ins ssa.Instruction) {
